@@ -190,9 +190,10 @@ CHECKS["C16"] = {
               # the Add wrapper against an ideal loop: every call asks the loop and returns its answer (same: bit i = call i repeats call 0's duty)
               {"harness": "VerifC16Add", "params": {"k": 3, "same": [0, 2, 6]}}],
     "thorough": [{"harness": "VerifC16Deadliner", "params": {"k": [2, 3, 4]}, "prune": 1000, "timeout_ms": 600000, "case_timeout_s": 14000},
-                 {"harness": "VerifC16Burst", "params": {"burst": [1, 2, 3, 5, 8, 10, 11, 12, 13]}}],
+                 {"harness": "VerifC16Burst", "params": {"burst": [1, 2, 3, 5, 8, 10, 11, 12, 13]}},
+                 {"harness": "VerifC16Add", "params": {"k": [3, 4], "same": [0, 2, 4, 6, 14]}, "cross": True}],
     "bounds": {
-        "quick": "burst scenario (concrete): 3, 10 and 11 distinct duties sharing one deadline, registered before it, consumer reading whenever the deadliner is idle (KNOWN-FINDING C16-a at 11: the 10-slot output buffer drops the eleventh); k=2 registrations over 3 duty slots (repeats allowed), each of an expiring or an exempt type, deadlines and clock advances symbolic (8-bit offsets), every order in which ready events (registration, timer) are taken; consumer reads whenever the deadliner goroutine is idle",
+        "quick": "the Add wrapper against an ideal loop (3 calls, repeats of the first duty, symbolic answers): every call asks the loop once and returns its answer; burst scenario (concrete): 3, 10 and 11 distinct duties sharing one deadline, registered before it, consumer reading whenever the deadliner is idle (KNOWN-FINDING C16-a at 11: the 10-slot output buffer drops the eleventh); k=2 registrations over 3 duty slots (repeats allowed), each of an expiring or an exempt type, deadlines and clock advances symbolic (8-bit offsets), every order in which ready events (registration, timer) are taken; consumer reads whenever the deadliner goroutine is idle",
         "thorough": "k<=4 registrations",
     },
     "outside": "Add()'s own select on quit; real timers (a harness clock implements clockwork.Clock; time.Time arithmetic is modelled as int64 nanoseconds); re-registration of a duty at the very instant of its deadline after it was scheduled before",
